@@ -7,6 +7,7 @@ func init() {
 		ID:    "C09",
 		Title: "Evaluation never crashes",
 		Rules: []string{
+			"R-BRANCH: @if / the ternary by cases — a failing condition yields its error",
 			"R-USERCODE: the data conversion calls no method of a data value (no interface method call on a non-module interface, no reflect method call)",
 			"R-RECDEPTH: the recursion of the data conversion (NativeToObject and its helpers) runs through a depth or cycle guard — it has none: known finding (data with a pointer cycle)",
 			"R-TOKPOS: who writes the lexer's position counters; token positions (evaluation errors carry the line of the construct)",
@@ -17,6 +18,7 @@ func init() {
 		NotDecided:  "TODO",
 		Assumptions: trustedBase,
 		Run: func(m *Model, s *Sink) {
+			m.RunBranch(s, "R-BRANCH")          // a fault in any condition that is evaluated is returned (by cases)
 			m.RunNoUserMethods(s, "R-USERCODE") // no method of a data value is called while the data is converted (a typed nil Stringer)
 			// the conversion of the caller's data recurses over the data: a pointer cycle never ends (a Go stack overflow is not a panic)
 			if nto := m.PkgFunc("object", "NativeToObject"); nto != nil {
@@ -38,6 +40,7 @@ func init() {
 			bc.Run("R-BOUNDS", "R-DIVGUARD", fns)
 			m.RunNilField(s, "R-NILFIELD", fns)
 			m.RunPanicCall(s, "R-PANICCALL", fns)
+			m.RunHashableKeys(s, "R-PANICCALL", fns) // no map keyed by an interface is indexed with a value that may be a slice or a map
 			m.RunNilFuncCall(s, "R-PANICCALL", fns) // a function looked up in a table is called only where it was found
 			m.RunNilObj(s, "R-NILOBJ", fns)
 			m.RunOkObj(s, "R-NILOBJ", fns) // the object of a (object, found) lookup is used only where it was found
